@@ -539,6 +539,9 @@ class Chain(BaseChain):
         current_blob = self.current_blob
         # transdimensional proposals need to know which proposals are active
         if self.transdimensional:
+            # note: the current position may be the dictionary storing the
+            # start position, which must not get the extra key
+            current_pos = current_pos.copy()
             current_pos.update({'_state': self._active_props})
         # create a proposal and test it
         proposal = self.proposal_dist.jump(current_pos)
